@@ -1,8 +1,17 @@
-# Per-property check configuration for ./check.
+# Per-property check configuration for ./check and gen_manifest.py.
 # pkg: Go test package under harness/; tags: extra build tags (verif is always on);
 # race: build with the race detector; timeouts in seconds (outer wall-clock watchdog => inconclusive).
 CHECKS = {
-    "C17": {"pkg": "c17_kbin", "timeout_quick": 600, "timeout_thorough": 3600},
+    "C17": {
+        "pkg": "c17_kbin", "timeout_quick": 600, "timeout_thorough": 3600,
+        "technique": "reference-model monitor over enumerated and random values (differential oracle)",
+        "level_text": "exploration: pkg/kbin's encoders, length functions, decoders and Reader are observed against reference LEB128/zig-zag/big-endian implementations over boundary values, all 1-6 byte control-bit structures, every strict prefix of valid encodings, millions of random values; the thorough tier enumerates every uint32. The private kmsg copy is compared with the public file on the current tree.",
+        "level_note": "Trusted: the reference encoders in harness/c17_kbin. 64-bit values are sampled, not enumerated.",
+    },
+}
+
+# Properties not claimed, with the reason.
+NOT_APPLICABLE = {
 }
 
 # Workloads the C41 (data race) check runs under -race; each prints C41OBS lines.
